@@ -15,13 +15,18 @@ Import ListNotations.
 From Zap Require Import Base.Wire C03.Lang C03.Arith C03.Model.
 Local Open Scope Z_scope.
 
-(* what "delivers exactly its value" means for constructor c on key k and value v *)
-Definition ctor_ok (stack : bytes) (c : ctor) (k : bytes) (v : val) : Prop :=
-  match construct T ctor_fuel stack (c_name c) k v with
+(* what "delivers exactly its value" means for constructor c on key k and value v.
+   Ambient state: [la] is what time.Local points to while the Field is built, [lb] what it points to
+   while the Field is encoded, [la'] what it points to while the same input is turned into a Field
+   a second time.  All three are arbitrary and unrelated: the Field carries everything the encoder
+   needs, nothing is re-derived from a process global at a later moment. *)
+Definition ctor_ok (la la' lb : Z) (stack : bytes) (c : ctor) (k : bytes) (v : val) : Prop :=
+  match construct T ctor_fuel la stack (c_name c) k v with
   | Some f =>
-      match addto T (addto_fuel v) f with
+      construct T ctor_fuel la' stack (c_name c) k v = Some f /\
+      match addto T (addto_fuel v) lb f with
       | Some cs =>
-          expected stack (c_name c) (c_param c) k v = Some (norm_calls cs) /\
+          expected lb stack (c_name c) (c_param c) k v = Some (norm_calls cs) /\
           fwfb f = true /\
           (payload_self (c_param c) v = true -> fself f = true)
       | None => False
@@ -118,20 +123,21 @@ Ltac split_cmp := repeat (match goal with
 
 (* an element-wise loop over the slice l *)
 Ltac loops := try match goal with
-  | Hl : forallb (in_typeb ?t) ?l = true |- context[run_loop ?A ?L ?a ?l] =>
+  | Hl : forallb (in_typeb ?t) ?l = true |- context[run_loop ?loc ?A ?L ?a ?l] =>
       let cs := fresh "cs" in let E1 := fresh "E" in let E2 := fresh "E" in
       let H := fresh "H" in
-      assert (H : forall i x, In x l -> exists c, loop1 A L a i x = Some c /\ exp_elem t a i x = Some (norm_calls c));
+      assert (H : forall i x, In x l -> exists c, loop1 loc A L a i x = Some c /\ exp_elem t a i x = Some (norm_calls c));
       [ let i := fresh "i" in let x := fresh "x" in let Hx := fresh "Hx" in
         intros i x Hx; apply (forallb_In _ _ _ Hl) in Hx;
         destruct x; cbn in Hx; try discriminate Hx;
         repeat match goal with o : opq |- _ => destruct o end;
         cbn [loop1 exp_elem]; cbn; eexists; split; reflexivity
-      | destruct (oconcati_rel (loop1 A L a) (exp_elem t a) l H 0) as (cs & E1 & E2);
+      | destruct (oconcati_rel (loop1 loc A L a) (exp_elem t a) l H 0) as (cs & E1 & E2);
         unfold run_loop; rewrite E1; cbn; try rewrite E2 ]
   end.
 
 Ltac finish :=
+  split; [reflexivity|];   (* the same Field under any other ambient state *)
   split; [cbn; wraps; try reflexivity|];
   split; [reflexivity|];
   cbn; try (intros _; reflexivity); try tauto;
@@ -139,7 +145,8 @@ Ltac finish :=
 
 Ltac solve_ctor :=
   let stack := fresh "stack" in let k := fresh "k" in let v := fresh "v" in let Hv := fresh "Hv" in
-  intros stack k v Hv; cbn [c_param] in Hv; destr_val;
+  let la := fresh "la" in let la' := fresh "la'" in let lb := fresh "lb" in
+  intros la la' lb stack k v Hv; cbn [c_param] in Hv; destr_val;
   unfold ctor_ok; cbn [c_name c_param];
   cbn; repeat (progress wraps; cbn); split_cmp; repeat (progress wraps; cbn);
   loops; finish.
@@ -148,7 +155,7 @@ Definition is_dict (c : ctor) : bool := bytes_eqb (intent (c_name c)) ($"dict").
 
 Definition table_ok (l : list ctor) : Prop :=
   Forall (fun c => is_dict c = false ->
-                   forall stack k v, in_typeb (c_param c) v = true -> ctor_ok stack c k v) l.
+                   forall la la' lb stack k v, in_typeb (c_param c) v = true -> ctor_ok la la' lb stack c k v) l.
 
 (* ---------- every constructor of the generated table ---------- *)
 Lemma all_ctors_ok : table_ok (t_ctors T).
@@ -160,6 +167,6 @@ Proof.
 Qed.
 
 Lemma ctor_ok_in c : In c (t_ctors T) -> is_dict c = false ->
-  forall stack k v, in_typeb (c_param c) v = true -> ctor_ok stack c k v.
+  forall la la' lb stack k v, in_typeb (c_param c) v = true -> ctor_ok la la' lb stack c k v.
 Proof. intros I. exact (proj1 (Forall_forall _ _) all_ctors_ok c I). Qed.
 
